@@ -1412,9 +1412,11 @@ func call(n *node) {
 		nf := newFrame(f, len(def.types), f.runid())
 		var vararg reflect.Value
 
-		// Init return values
+		// Init return values. The results of a function started by a go statement
+		// are discarded: they must not be the caller's temporaries, which all the
+		// goroutines started by that statement would share.
 		for i, v := range rvalues {
-			if v != nil {
+			if v != nil && !goroutine {
 				nf.data[i] = v(f)
 			} else {
 				nf.data[i] = reflect.New(def.types[i]).Elem()
